@@ -5,7 +5,10 @@ by the model from an independent reading of the island's state and compared exac
 (b) certified by the verified checker: the solver's solution is feasible (to 1e-9) and its cost
 is within the gap of the Lagrangian bound of the solver's own multipliers, hence (theorem
 `C03.checkCert_sound`) within the gap of the true minimum.  The amounts actually put on the
-energy-shed stacks are compared with the model's `reported`.
+energy-shed stacks are compared with the model's `reported`.  Independently of whether the
+implementation called the solver at all, the documented problem of every island with demand is
+solved by the harness, certified by the same checker, and the cost of what was actually recorded
+must not be below that certified minimum.
 """
 import random
 from fractions import Fraction
@@ -54,7 +57,69 @@ def handler(case):
             got = [F(float(d)) / F(float(r["dt"])) if r["dt"] else F(0) for d in r["stack_delta"]]
             if len(rep) == len(got) and any(abs(a - b) > F(1, 10 ** 9) for a, b in zip(rep, got)):
                 viols.append(("lp.reported", f"{tag}: amounts put on the energy-shed stacks {[float(g) for g in got]} differ from the thresholded solution {[float(v) for v in rep]}"))
+    viols += independent_minimum(records, sig)
     return dict(ops=ops, impl=impl, viols=viols[:3], nontrivial=tuple(sorted(sig, key=str)) if sig else None, tag=f"lp-run:solved={len(cert_meta)}")
+
+
+def independent_minimum(records, sig):
+    """Whether or not the implementation called the solver: the documented problem of every island with demand is built by
+    the model, solved here, the solution certified by the verified checker, and the cost of what the implementation actually
+    recorded as shed is compared with that certified minimum (a recorded shed that is cheaper than the minimum cannot be
+    feasible: some limit or balance is violated)."""
+    import numpy as np
+    from scipy.optimize import linprog
+    viols = []
+    todo = []
+    for r in records:
+        buses, lns, loads, costs, gens, ls = r["pre"]
+        if sum(loads) <= lpcap.ALPHA or not r["dt"]:
+            continue
+        todo.append(r)
+    if not todo:
+        return viols
+    dumps = run_driver([lpcap.island_op(*[r["pre"][k] for k in (2, 3, 4, 5)]) for r in todo])
+    cert_ops, meta = [], []
+    for r, dmp in zip(todo, dumps):
+        parts = dmp.split(" ")
+        try:
+            n = int(parts[0])
+            A = [[float(F(v)) for v in row.split(",")] for row in parts[1].split(";")]
+            b = [float(F(v)) for v in parts[2].split(",")]
+            c = [float(F(v)) for v in parts[3].split(",")]
+            lo = [float(F(v)) for v in parts[4].split(",")]
+            hi = [float(F(v)) for v in parts[5].split(",")]
+        except Exception:
+            continue
+        res = linprog(c, A_eq=np.array(A), b_eq=np.array(b), bounds=list(zip(lo, hi)))
+        if res.status != 0:
+            continue
+        buses, lns, loads, costs, gens, ls = r["pre"]
+        cmax = max([cc for cc, l in zip(costs, loads) if l > 0] + [F(1)])
+        tol = F(1, 10 ** 6) * (1 + max(loads + [F(0)]))
+        gap = F(1, 10 ** 6) * (1 + abs(lpcap.fx(res.fun))) + 4 * tol * cmax
+        cert_ops += [lpcap.island_op(loads, costs, gens, ls),
+                     f"lp cert {flist([lpcap.fx(v) for v in res.x])} {flist([lpcap.fx(v) for v in res.eqlin.marginals])} {fr(gap)} {fr(tol)}"]
+        meta.append((r, gap, cmax))
+    if not cert_ops:
+        return viols
+    out = run_driver(cert_ops)
+    for k, (r, gap, cmax) in enumerate(meta):
+        o = out[2 * k + 1].split()
+        if o[0] != "T":
+            continue                       # this harness-side solve is not certified: no claim
+        dual = F(o[2])
+        buses, lns, loads, costs, gens, ls = r["pre"]
+        dt = F(float(r["dt"]))
+        shed = [F(float(d)) / dt for d in r["stack_delta"]]
+        rec_cost = sum(cc * sh for cc, sh in zip(costs, shed))
+        slack = gap + len(buses) * lpcap.ALPHA * cmax + F(1, 10 ** 9)      # amounts below alpha are not recorded
+        sig.add(("independent", r["reactive"], r["call"] is None, dual > slack))
+        if rec_cost < dual - slack:
+            tag = f"{'reactive' if r['reactive'] else 'active'} problem of island {r['names']}"
+            viols.append(("lp.below-minimum", f"{tag}: the recorded shed {[float(x) for x in shed]} costs {float(rec_cost):.9g}, the certified minimum of the documented problem is "
+                                              f">= {float(dual):.9g} (loads {[float(x) for x in loads]}, line limits {[float(cap) for _, _, cap in ls]}): what was recorded is not feasible"
+                                              + (" - the solver was not called for this island" if r["call"] is None else "")))
+    return viols
 
 
 def run(res):
